@@ -160,8 +160,10 @@ def o9_8_should_schedule(mir, tier):
                                  ('the scheduled flag is not set exactly when a compaction is to be scheduled (or an existing flag is cleared)', flag == Or(BoolVal(sched), want))]
                         res.cases['scheduled=%s error=%s imm=%s manual=%s' % (sched, bad, imm, man)] = 1
                         for label, post, m in ex.check_posts(posts, pc):
-                            res.violations.append({'label': label, 'case': {'scheduled': sched, 'error': bad, 'immutable_memtable': imm, 'manual_request': man, 'shutting_down': bool(mval(m, shutting)), 'needs_compaction': bool(mval(m, needs))},
-                                                   'replay': ['compact_waiters'], 'expect_hang': True})
+                            case = {'scheduled': sched, 'error': bad, 'immutable_memtable': imm, 'manual_request': man, 'shutting_down': bool(mval(m, shutting)), 'needs_compaction': bool(mval(m, needs))}
+                            res.violations.append({'label': label, 'case': case, 'replay': ['compact_waiters'], 'expect_hang': True})
+                            # second native scenario: closing the database while a size-triggered compaction is in flight
+                            res.violations.append({'label': label, 'case': case, 'replay': ['close_during_size_compaction']})
                     ex.top(fn, [{'abstract': True, '__ty': 'PortableDatabaseState', 0: 'x'}, Ref('$guard')], {'$state': {}, '$g': g, '$guard': Ref('$g')}, [], k)
                     res.absorb(ex)
     res.wall_s = time.time() - t0
@@ -171,6 +173,10 @@ def o9_8_should_schedule(mir, tier):
 
 def o9_8_confirm(v, out):
     """Native: three threads call compact_range concurrently for several rounds (manual requests while flushes are pending); all must return."""
+    if v['replay'][0] == 'close_during_size_compaction':
+        if out.get('_rc') != 0: return (False, 'native run failed: %s' % out.get('_stderr', '')[-300:])
+        return (out.get('compaction_started') == 'true' and out.get('open_while_compaction_in_flight') == 'ok',
+                'native (disk file system): the database is dropped while a size-triggered compaction is in flight (%s level-0 tables); a second open during that time: %s; after the close: %s' % (out.get('level0_files'), out.get('open_while_compaction_in_flight'), out.get('open_after_close')))
     if out.get('_timeout'): return (True, 'native: concurrent compact_range calls did not all return within the watchdog time')
     if out.get('_rc') != 0: return (False, 'native run failed: %s' % out.get('_stderr', '')[-300:])
     return (out.get('all_returned') != 'true', 'native: %s' % {k: x for k, x in out.items() if not k.startswith('_')})
